@@ -1,9 +1,10 @@
-// Genesis-data builders, one per header-sync router. Every builder is a pure function of gparams
+// Package genesissynth: genesis-data builders, one per header-sync router (shared by the C19 check
+// and the cross-cutting workloads). Every builder is a pure function of Params
 // (height, validator seed, validator count, salt), so "the same genesis again" and "a genesis that
 // differs only in X" are expressible. The builders use the routers' own exported parameter types
 // and the upstream libraries' encoders (go-ethereum JSON/RLP, amino, ontology/neo/btcd binary
 // serialisers); they share no code with the SyncGenesisHeader functions under observation.
-package c19
+package genesissynth
 
 import (
 	"bytes"
@@ -66,25 +67,25 @@ import (
 	"verifharness/kit/pk"
 )
 
-// gparams determines one genesis blob completely.
-type gparams struct {
+// Params determines one genesis blob completely.
+type Params struct {
 	Height  uint64 // side-chain height of the trust root
 	ValSeed int64  // seed of the validator / committee / next-consensus identity (PoW routers: of the header content)
 	NVals   int    // number of validators
 	Salt    int64  // seed of every other header field (roots, time, vanity, ...)
 }
 
-type routerDef struct {
-	name  string
-	id    uint64
-	extra []byte // side-chain ExtraInfo registered through side_chain_manager
-	minH  uint64 // heights are minH + k*hstep
-	hstep uint64
-	spanH uint64 // k < spanH
-	build func(p gparams) ([]byte, error)
+type Router struct {
+	Name  string
+	ID    uint64
+	Extra []byte // side-chain ExtraInfo registered through side_chain_manager
+	MinH  uint64 // heights are MinH + k*HStep
+	HStep uint64
+	SpanH uint64 // k < SpanH
+	Build func(p Params) ([]byte, error)
 	// sync (optional) builds headers that the router's syncBlockHeader accepts after build(p) was
 	// installed as genesis, so that later genesis attempts meet a light client that has moved on.
-	sync func(p gparams, rng *rand.Rand) ([][]byte, error)
+	Sync func(p Params, rng *rand.Rand) ([][]byte, error)
 }
 
 func rb(rng *rand.Rand, n int) []byte {
@@ -115,7 +116,7 @@ func cliqueExtra(salt *rand.Rand, vals []ecommon.Address) []byte {
 }
 
 // gethHeader fills every field of a go-ethereum header; all but Number/Extra come from the salt.
-func gethHeader(p gparams, salt *rand.Rand, extra []byte) *etypes.Header {
+func gethHeader(p Params, salt *rand.Rand, extra []byte) *etypes.Header {
 	h := &etypes.Header{
 		ParentHash: hash32(salt), UncleHash: hash32(salt), Root: hash32(salt), TxHash: hash32(salt), ReceiptHash: hash32(salt),
 		Difficulty: big.NewInt(1 + salt.Int63n(1<<40)), Number: new(big.Int).SetUint64(p.Height),
@@ -129,7 +130,7 @@ func gethHeader(p gparams, salt *rand.Rand, extra []byte) *etypes.Header {
 }
 
 // polyEthHeader is the same content in poly's EIP-1559-capable header type (eth, heco, hsc, pixie, bor).
-func polyEthHeader(p gparams, salt *rand.Rand, extra []byte) eth.Header {
+func polyEthHeader(p Params, salt *rand.Rand, extra []byte) eth.Header {
 	g := gethHeader(p, salt, extra)
 	h := eth.Header{ParentHash: g.ParentHash, UncleHash: g.UncleHash, Coinbase: g.Coinbase, Root: g.Root, TxHash: g.TxHash,
 		ReceiptHash: g.ReceiptHash, Bloom: g.Bloom, Difficulty: g.Difficulty, Number: g.Number, GasLimit: g.GasLimit,
@@ -140,7 +141,7 @@ func polyEthHeader(p gparams, salt *rand.Rand, extra []byte) eth.Header {
 	return h
 }
 
-func prevHeight(p gparams, salt *rand.Rand) *big.Int {
+func prevHeight(p Params, salt *rand.Rand) *big.Int {
 	d := uint64(1 + salt.Intn(400))
 	if d > p.Height {
 		d = p.Height
@@ -148,9 +149,9 @@ func prevHeight(p gparams, salt *rand.Rand) *big.Int {
 	return new(big.Int).SetUint64(p.Height - d)
 }
 
-func saltOf(p gparams) *rand.Rand { return rand.New(rand.NewSource(p.Salt)) }
+func saltOf(p Params) *rand.Rand { return rand.New(rand.NewSource(p.Salt)) }
 
-func buildETH(p gparams) ([]byte, error) {
+func buildETH(p Params) ([]byte, error) {
 	s := saltOf(p)
 	// eth is PoW: no validator set; the "validator seed" selects the state root / miner instead
 	h := polyEthHeader(p, s, rb(s, s.Intn(33)))
@@ -160,35 +161,35 @@ func buildETH(p gparams) ([]byte, error) {
 	return json.Marshal(h)
 }
 
-func buildBSC(p gparams) ([]byte, error) {
+func buildBSC(p Params) ([]byte, error) {
 	s := saltOf(p)
 	h := gethHeader(p, s, cliqueExtra(s, ethAddrs(p.ValSeed, p.NVals)))
 	return json.Marshal(bsc.GenesisHeader{Header: *h, PrevValidators: []bsc.HeightAndValidators{
 		{Height: prevHeight(p, s), Validators: ethAddrs(p.ValSeed^0x5a5a, p.NVals)}}})
 }
 
-func buildBytom(p gparams) ([]byte, error) {
+func buildBytom(p Params) ([]byte, error) {
 	s := saltOf(p)
 	h := gethHeader(p, s, cliqueExtra(s, ethAddrs(p.ValSeed, p.NVals)))
 	return json.Marshal(bytom.GenesisHeader{Header: *h, PrevValidators: []bytom.HeightAndValidators{
 		{Height: prevHeight(p, s), Validators: ethAddrs(p.ValSeed^0x5a5a, p.NVals)}}})
 }
 
-func buildHeco(p gparams) ([]byte, error) {
+func buildHeco(p Params) ([]byte, error) {
 	s := saltOf(p)
 	h := polyEthHeader(p, s, cliqueExtra(s, ethAddrs(p.ValSeed, p.NVals)))
 	return json.Marshal(heco.GenesisHeader{Header: h, PrevValidators: []heco.HeightAndValidators{
 		{Height: prevHeight(p, s), Validators: ethAddrs(p.ValSeed^0x5a5a, p.NVals)}}})
 }
 
-func buildHsc(p gparams) ([]byte, error) {
+func buildHsc(p Params) ([]byte, error) {
 	s := saltOf(p)
 	h := polyEthHeader(p, s, cliqueExtra(s, ethAddrs(p.ValSeed, p.NVals)))
 	return json.Marshal(hsc.GenesisHeader{Header: h, PrevValidators: []hsc.HeightAndValidators{
 		{Height: prevHeight(p, s), Validators: ethAddrs(p.ValSeed^0x5a5a, p.NVals)}}})
 }
 
-func buildPixie(p gparams) ([]byte, error) {
+func buildPixie(p Params) ([]byte, error) {
 	s := saltOf(p)
 	h := polyEthHeader(p, s, cliqueExtra(s, ethAddrs(p.ValSeed, p.NVals)))
 	return json.Marshal(pixiechain.GenesisHeader{Header: h, PrevValidators: []pixiechain.HeightAndValidators{
@@ -197,12 +198,12 @@ func buildPixie(p gparams) ([]byte, error) {
 
 const mscEpoch = 100
 
-func buildMSC(p gparams) ([]byte, error) {
+func buildMSC(p Params) ([]byte, error) {
 	s := saltOf(p)
 	return json.Marshal(gethHeader(p, s, cliqueExtra(s, ethAddrs(p.ValSeed, p.NVals))))
 }
 
-func buildBor(p gparams) ([]byte, error) {
+func buildBor(p Params) ([]byte, error) {
 	s := saltOf(p)
 	addrs := ethAddrs(p.ValSeed, p.NVals)
 	pw := rand.New(rand.NewSource(p.ValSeed ^ 0x77))
@@ -219,7 +220,7 @@ func tmTime(s *rand.Rand) time.Time {
 	return time.Unix(1500000000+s.Int63n(200000000), int64(s.Intn(1000000000))).UTC()
 }
 
-func buildHeimdall(p gparams) ([]byte, error) {
+func buildHeimdall(p Params) ([]byte, error) {
 	s := saltOf(p)
 	v := rand.New(rand.NewSource(p.ValSeed))
 	var vals []*ptypes.Validator
@@ -234,14 +235,14 @@ func buildHeimdall(p gparams) ([]byte, error) {
 	return ptypes.NewCDC().MarshalBinaryBare(polygon.CosmosHeader{Header: h, Valsets: vals})
 }
 
-func tmHeader(p gparams, s *rand.Rand, valsHash, proposer []byte) tmtypes.Header {
+func tmHeader(p Params, s *rand.Rand, valsHash, proposer []byte) tmtypes.Header {
 	return tmtypes.Header{Version: tmversion.Consensus{Block: 10, App: tmversion.Protocol(s.Intn(3))}, ChainID: "c19-chain", Height: int64(p.Height), Time: tmTime(s),
 		LastBlockID:    tmtypes.BlockID{Hash: rb(s, 32), PartsHeader: tmtypes.PartSetHeader{Total: 1, Hash: rb(s, 32)}},
 		LastCommitHash: rb(s, 32), DataHash: rb(s, 32), ValidatorsHash: rb(s, 32), NextValidatorsHash: valsHash, ConsensusHash: rb(s, 32),
 		AppHash: rb(s, 32), LastResultsHash: rb(s, 32), EvidenceHash: rb(s, 32), ProposerAddress: proposer}
 }
 
-func cosmosVals(p gparams) (*tmtypes.ValidatorSet, map[string]ed25519.PrivKeyEd25519) {
+func cosmosVals(p Params) (*tmtypes.ValidatorSet, map[string]ed25519.PrivKeyEd25519) {
 	v := rand.New(rand.NewSource(p.ValSeed))
 	var vals []*tmtypes.Validator
 	privs := map[string]ed25519.PrivKeyEd25519{}
@@ -254,7 +255,7 @@ func cosmosVals(p gparams) (*tmtypes.ValidatorSet, map[string]ed25519.PrivKeyEd2
 	return tmtypes.NewValidatorSet(vals), privs
 }
 
-func buildCosmos(p gparams) ([]byte, error) {
+func buildCosmos(p Params) ([]byte, error) {
 	s := saltOf(p)
 	vs, _ := cosmosVals(p)
 	h := tmHeader(p, s, vs.Hash(), vs.Validators[0].Address)
@@ -263,9 +264,9 @@ func buildCosmos(p gparams) ([]byte, error) {
 
 // syncCosmos: a later header that switches the validator set, committed (tendermint v0.33 vote
 // sign bytes, ed25519) by every validator of the set the genesis header announced.
-func syncCosmos(p gparams, rng *rand.Rand) ([][]byte, error) {
+func syncCosmos(p Params, rng *rand.Rand) ([][]byte, error) {
 	vs, privs := cosmosVals(p)
-	h := tmHeader(gparams{Height: p.Height + 1 + uint64(rng.Intn(5000))}, rng, rb(rng, 32), vs.Validators[rng.Intn(len(vs.Validators))].Address)
+	h := tmHeader(Params{Height: p.Height + 1 + uint64(rng.Intn(5000))}, rng, rb(rng, 32), vs.Validators[rng.Intn(len(vs.Validators))].Address)
 	h.ValidatorsHash = vs.Hash()
 	commit := &tmtypes.Commit{Height: h.Height, Round: rng.Intn(3), BlockID: tmtypes.BlockID{Hash: h.Hash(),
 		PartsHeader: tmtypes.PartSetHeader{Total: 1, Hash: rb(rng, 32)}}}
@@ -283,7 +284,7 @@ func syncCosmos(p gparams, rng *rand.Rand) ([][]byte, error) {
 	return [][]byte{b}, err
 }
 
-func buildOkex(p gparams) ([]byte, error) {
+func buildOkex(p Params) ([]byte, error) {
 	s := saltOf(p)
 	v := rand.New(rand.NewSource(p.ValSeed))
 	var vals []*tmtypes.Validator
@@ -303,7 +304,7 @@ func buildOkex(p gparams) ([]byte, error) {
 
 func u256(rng *rand.Rand) (u ocommon.Uint256) { rng.Read(u[:]); return }
 
-func buildONT(p gparams) ([]byte, error) {
+func buildONT(p Params) ([]byte, error) {
 	s := saltOf(p)
 	keys := pk.NewKeys(rand.New(rand.NewSource(p.ValSeed)), p.NVals)
 	cfg := &vconfig.ChainConfig{Version: 1, View: 1 + uint32(s.Intn(9)), N: uint32(p.NVals), C: uint32((p.NVals - 1) / 3),
@@ -334,7 +335,7 @@ func buildONT(p gparams) ([]byte, error) {
 
 // syncONT: the next ont headers, really multi-signed by all consensus peers the genesis announced;
 // the last one may announce a new peer set (a new key height).
-func syncONT(p gparams, rng *rand.Rand) ([][]byte, error) {
+func syncONT(p Params, rng *rand.Rand) ([][]byte, error) {
 	keys := pk.NewKeys(rand.New(rand.NewSource(p.ValSeed)), p.NVals)
 	var pubs []keypair.PublicKey
 	for _, k := range keys {
@@ -373,7 +374,7 @@ func syncONT(p gparams, rng *rand.Rand) ([][]byte, error) {
 	return out, nil
 }
 
-func buildNEO(p gparams) ([]byte, error) {
+func buildNEO(p Params) ([]byte, error) {
 	s := saltOf(p)
 	prev, _ := neohelper.UInt256FromBytes(rb(s, 32))
 	root, _ := neohelper.UInt256FromBytes(rb(s, 32))
@@ -388,7 +389,7 @@ func buildNEO(p gparams) ([]byte, error) {
 	return sink.Bytes(), nil
 }
 
-func buildNEO3(p gparams) ([]byte, error) {
+func buildNEO3(p Params) ([]byte, error) {
 	s := saltOf(p)
 	h := &neo3.NeoBlockHeader{Header: neo3block.NewBlockHeader()}
 	h.SetVersion(0)
@@ -407,7 +408,7 @@ func buildNEO3(p gparams) ([]byte, error) {
 	return sink.Bytes(), nil
 }
 
-func buildNEO3Legacy(p gparams) ([]byte, error) {
+func buildNEO3Legacy(p Params) ([]byte, error) {
 	s := saltOf(p)
 	h := &neo3legacy.NeoBlockHeader{Header: neo3lblock.NewBlockHeader()}
 	h.SetVersion(0)
@@ -425,7 +426,7 @@ func buildNEO3Legacy(p gparams) ([]byte, error) {
 	return sink.Bytes(), nil
 }
 
-func buildQuorum(p gparams) ([]byte, error) {
+func buildQuorum(p Params) ([]byte, error) {
 	s := saltOf(p)
 	ist := &quorum.IstanbulExtra{Validators: ethAddrs(p.ValSeed, p.NVals), Seal: rb(s, 65), CommittedSeal: [][]byte{rb(s, 65), rb(s, 65)}}
 	payload, err := rlp.EncodeToBytes(ist)
@@ -437,7 +438,7 @@ func buildQuorum(p gparams) ([]byte, error) {
 	return json.Marshal(h)
 }
 
-func buildBTC(p gparams) ([]byte, error) {
+func buildBTC(p Params) ([]byte, error) {
 	s := saltOf(p)
 	v := rand.New(rand.NewSource(p.ValSeed)) // PoW chain: the "validator seed" selects the block content instead
 	var prev, root chainhash.Hash
@@ -457,7 +458,7 @@ func buildBTC(p gparams) ([]byte, error) {
 // zilliqa / zilliqalegacy: the recorded tx block 1 + DS block 1 + initial committee of the repo's
 // tests. Height 1 / ValSeed&3==0 / Salt&1==0 keep the respective recorded part literally;
 // otherwise the block number, the committee keys, or the block hash are replaced.
-func zilCommittee(p gparams) []string {
+func zilCommittee(p Params) []string {
 	if p.ValSeed&3 == 0 {
 		return zilInitComm
 	}
@@ -469,7 +470,7 @@ func zilCommittee(p gparams) []string {
 	return out
 }
 
-func buildZil(p gparams) ([]byte, error) {
+func buildZil(p Params) ([]byte, error) {
 	var tx zcore.TxBlock
 	var ds zcore.DsBlock
 	if err := json.Unmarshal([]byte(zilTxBlockJSON), &tx); err != nil {
@@ -491,7 +492,7 @@ func buildZil(p gparams) ([]byte, error) {
 	return json.Marshal(&zilliqa.TxBlockAndDsComm{TxBlock: &tx, DsBlock: &ds, DsComm: comm})
 }
 
-func buildZilLegacy(p gparams) ([]byte, error) {
+func buildZilLegacy(p Params) ([]byte, error) {
 	var tx zlcore.TxBlock
 	var ds zlcore.DsBlock
 	if err := json.Unmarshal([]byte(zilTxBlockJSON), &tx); err != nil {
@@ -519,7 +520,7 @@ func buildZilLegacy(p gparams) ([]byte, error) {
 // that reason), so they are normalised to the current JSON shape: accumulator counters become
 // strings and block_info.block_id is named block_hash. Height 0 keeps the recorded block number,
 // an even salt keeps the recorded timestamp / nonce; otherwise they are replaced.
-func buildSTC(p gparams) ([]byte, error) {
+func buildSTC(p Params) ([]byte, error) {
 	base := stcMainHeaderJSON
 	if p.ValSeed&1 == 1 {
 		base = stcHeader2810118JSON
@@ -568,28 +569,28 @@ func mustJSON(v interface{}) []byte {
 }
 
 // routers lists every header-sync router except harmony (BLS stub: cannot be exercised).
-func routers() []routerDef {
+func Routers() []Router {
 	chainID := func(n int64) []byte { return mustJSON(map[string]interface{}{"ChainID": n}) }
-	return []routerDef{
-		{name: "eth", id: utils.ETH_ROUTER, minH: 0, hstep: 1, spanH: 15000000, build: buildETH},
-		{name: "bsc", id: utils.BSC_ROUTER, extra: chainID(56), minH: 200, hstep: 200, spanH: 100000, build: buildBSC},
-		{name: "heco", id: utils.HECO_ROUTER, extra: chainID(128), minH: 200, hstep: 200, spanH: 100000, build: buildHeco},
-		{name: "hsc", id: utils.HSC_ROUTER, extra: chainID(70), minH: 200, hstep: 200, spanH: 100000, build: buildHsc},
-		{name: "pixiechain", id: utils.PIXIECHAIN_ROUTER, extra: mustJSON(map[string]interface{}{"ChainID": 6626, "Period": 3}), minH: 1, hstep: 1, spanH: 10000000, build: buildPixie},
-		{name: "bytom", id: utils.BYTOM_ROUTER, extra: chainID(188), minH: 200, hstep: 200, spanH: 100000, build: buildBytom},
-		{name: "msc", id: utils.MSC_ROUTER, extra: mustJSON(map[string]interface{}{"ChainID": 1001, "Period": 3, "Epoch": mscEpoch}), minH: 0, hstep: mscEpoch, spanH: 100000, build: buildMSC},
-		{name: "bor", id: utils.POLYGON_BOR_ROUTER, extra: mustJSON(polygon.ExtraInfo{Sprint: 64, Period: 2, ProducerDelay: 6, BackupMultiplier: 2, HeimdallPolyChainID: 99}), minH: 0, hstep: 64, spanH: 400000, build: buildBor},
-		{name: "heimdall", id: utils.POLYGON_HEIMDALL_ROUTER, minH: 1, hstep: 1, spanH: 9000000, build: buildHeimdall},
-		{name: "cosmos", id: utils.COSMOS_ROUTER, minH: 1, hstep: 1, spanH: 9000000, build: buildCosmos, sync: syncCosmos},
-		{name: "okex", id: utils.OKEX_ROUTER, minH: 1, hstep: 1, spanH: 9000000, build: buildOkex},
-		{name: "ont", id: utils.ONT_ROUTER, minH: 0, hstep: 1, spanH: 12000000, build: buildONT, sync: syncONT},
-		{name: "neo", id: utils.NEO_ROUTER, minH: 0, hstep: 1, spanH: 8000000, build: buildNEO},
-		{name: "neo3", id: utils.NEO3_ROUTER, minH: 0, hstep: 1, spanH: 3000000, build: buildNEO3},
-		{name: "neo3legacy", id: utils.NEO3_LEGACY_ROUTER, minH: 0, hstep: 1, spanH: 3000000, build: buildNEO3Legacy},
-		{name: "quorum", id: utils.QUORUM_ROUTER, minH: 0, hstep: 1, spanH: 20000000, build: buildQuorum},
-		{name: "btc", id: utils.BTC_ROUTER, minH: 0, hstep: 1, spanH: 800000, build: buildBTC},
-		{name: "zilliqa", id: utils.ZILLIQA_ROUTER, extra: mustJSON(map[string]interface{}{"NumOfGuardList": 9}), minH: 1, hstep: 1, spanH: 2000000, build: buildZil},
-		{name: "zilliqalegacy", id: utils.ZILLIQA_LEGACY_ROUTER, extra: mustJSON(map[string]interface{}{"NumOfGuardList": 9}), minH: 1, hstep: 1, spanH: 2000000, build: buildZilLegacy},
-		{name: "starcoin", id: utils.STARCOIN_ROUTER, minH: 0, hstep: 1, spanH: 3000000, build: buildSTC},
+	return []Router{
+		{Name: "eth", ID: utils.ETH_ROUTER, MinH: 0, HStep: 1, SpanH: 15000000, Build: buildETH},
+		{Name: "bsc", ID: utils.BSC_ROUTER, Extra: chainID(56), MinH: 200, HStep: 200, SpanH: 100000, Build: buildBSC},
+		{Name: "heco", ID: utils.HECO_ROUTER, Extra: chainID(128), MinH: 200, HStep: 200, SpanH: 100000, Build: buildHeco},
+		{Name: "hsc", ID: utils.HSC_ROUTER, Extra: chainID(70), MinH: 200, HStep: 200, SpanH: 100000, Build: buildHsc},
+		{Name: "pixiechain", ID: utils.PIXIECHAIN_ROUTER, Extra: mustJSON(map[string]interface{}{"ChainID": 6626, "Period": 3}), MinH: 1, HStep: 1, SpanH: 10000000, Build: buildPixie},
+		{Name: "bytom", ID: utils.BYTOM_ROUTER, Extra: chainID(188), MinH: 200, HStep: 200, SpanH: 100000, Build: buildBytom},
+		{Name: "msc", ID: utils.MSC_ROUTER, Extra: mustJSON(map[string]interface{}{"ChainID": 1001, "Period": 3, "Epoch": mscEpoch}), MinH: 0, HStep: mscEpoch, SpanH: 100000, Build: buildMSC},
+		{Name: "bor", ID: utils.POLYGON_BOR_ROUTER, Extra: mustJSON(polygon.ExtraInfo{Sprint: 64, Period: 2, ProducerDelay: 6, BackupMultiplier: 2, HeimdallPolyChainID: 99}), MinH: 0, HStep: 64, SpanH: 400000, Build: buildBor},
+		{Name: "heimdall", ID: utils.POLYGON_HEIMDALL_ROUTER, MinH: 1, HStep: 1, SpanH: 9000000, Build: buildHeimdall},
+		{Name: "cosmos", ID: utils.COSMOS_ROUTER, MinH: 1, HStep: 1, SpanH: 9000000, Build: buildCosmos, Sync: syncCosmos},
+		{Name: "okex", ID: utils.OKEX_ROUTER, MinH: 1, HStep: 1, SpanH: 9000000, Build: buildOkex},
+		{Name: "ont", ID: utils.ONT_ROUTER, MinH: 0, HStep: 1, SpanH: 12000000, Build: buildONT, Sync: syncONT},
+		{Name: "neo", ID: utils.NEO_ROUTER, MinH: 0, HStep: 1, SpanH: 8000000, Build: buildNEO},
+		{Name: "neo3", ID: utils.NEO3_ROUTER, MinH: 0, HStep: 1, SpanH: 3000000, Build: buildNEO3},
+		{Name: "neo3legacy", ID: utils.NEO3_LEGACY_ROUTER, MinH: 0, HStep: 1, SpanH: 3000000, Build: buildNEO3Legacy},
+		{Name: "quorum", ID: utils.QUORUM_ROUTER, MinH: 0, HStep: 1, SpanH: 20000000, Build: buildQuorum},
+		{Name: "btc", ID: utils.BTC_ROUTER, MinH: 0, HStep: 1, SpanH: 800000, Build: buildBTC},
+		{Name: "zilliqa", ID: utils.ZILLIQA_ROUTER, Extra: mustJSON(map[string]interface{}{"NumOfGuardList": 9}), MinH: 1, HStep: 1, SpanH: 2000000, Build: buildZil},
+		{Name: "zilliqalegacy", ID: utils.ZILLIQA_LEGACY_ROUTER, Extra: mustJSON(map[string]interface{}{"NumOfGuardList": 9}), MinH: 1, HStep: 1, SpanH: 2000000, Build: buildZilLegacy},
+		{Name: "starcoin", ID: utils.STARCOIN_ROUTER, MinH: 0, HStep: 1, SpanH: 3000000, Build: buildSTC},
 	}
 }
